@@ -1,11 +1,16 @@
 #!/usr/bin/env python3
 """Print the prompt given to a fresh sub-agent for one property (only the property text + its own worktree)."""
-import json, sys
+import json, sys, os
 pid = sys.argv[1]; wt = sys.argv[2]; n = sys.argv[3] if len(sys.argv) > 3 else "2"
 EXTRA = """
 
 Make these HARD to find: assume the maintainers already run thousands of randomly generated small systems and random edit histories through the package and compare the results with an independent recomputation, and also check each function in isolation against its documented behaviour. Aim for changes that such checks are unlikely to hit: the interplay of two or three rarely combined features, a specific numeric coincidence or boundary (equal values, exact zeros, values just across a threshold), a state that only a particular multi-step history reaches, an argument form that is legal but unusual (ints instead of floats, lists vs scalars, tuples, numpy scalars, empty containers, names with special characters), behaviour that differs only on the second call, or two cooperating edits at different sites that each look fine alone."""
+EXTRA2 = """
+
+Make these HARD to find: assume the maintainers already run many thousands of randomly generated small systems (all component kinds, tables, limits, phases incl. odd ones, several sources, PMux, negative rails), random and exhaustive short edit histories with reports in between, and per-function checks of the documented behaviour of every function the property obviously depends on. Aim elsewhere: helper functions and constructors the property depends on only indirectly, default values and module-level constants, type coercions (int vs float, numpy scalars, bool, str), copy versus alias of arguments and defaults (shared mutable state between two components or two System objects, or between two calls), ordering assumptions (dict/registry order, node index re-use after deletions), state left behind by an earlier call or an earlier failure, exception paths, the interplay of three rarely combined features, exact numeric coincidences (equal voltages, exact zeros, values on a table grid line or limit boundary), and behaviour that differs only on the second or third call. Two cooperating edits at different sites that each look harmless are welcome."""
+if len(sys.argv) > 4 and sys.argv[4] == "hard2": EXTRA = EXTRA2
 p = [json.loads(l) for l in open("/verif/properties.jsonl") if json.loads(l)["id"] == pid][0]
+OUTDIR = os.environ.get("MUT_OUTDIR", "out")
 print(f"""You are helping to evaluate a verification effort for the open-source Python package geddy11/sysloss (a power-tree analyzer: sources, converters, regulators, loads; `System.solve()` computes steady-state voltages, currents, losses).
 
 You have your own scratch git worktree of the repository at {wt} (work ONLY there; never touch /repo or /verif, and do not read /verif). The package sources are in {wt}/src/sysloss (files use CRLF line endings - preserve them: edit with care, e.g. python scripts reading/writing with newline='' or the Edit tool; check `git diff --stat` stays small). NEVER use `git stash` (the stash is shared between all worktrees of this repository and other people work in sibling worktrees); to compare with the clean tree save your change with `git diff > file`, `git checkout -- .`, and re-apply with `git apply file`. Run python as `cd {wt} && PYTHONPATH={wt}/src /venv/bin/python ...` so that your worktree's copy is imported (verify with `import sysloss; print(sysloss.__file__)`). The existing test suite is run with `cd {wt} && PYTHONPATH={wt}/src /venv/bin/python -m pytest -q -p no:cacheprovider tests` (91 tests, ~15 s, all pass on the unchanged tree). There is no network.
@@ -22,7 +27,7 @@ Your task: produce {n} DIFFERENT, independent changes ("mutants") to the package
 For each mutant k = 1..{n}:
  1. start from the clean worktree (`git -C {wt} checkout -- .`), make the change, run the full test suite and confirm 91 passed;
  2. write a demonstration script {wt}/demo_k.py (plain python, uses only the public API of sysloss where possible, prints what it observes, exits with status 1 when the property is violated and 0 when it holds). It must exit 1 with the change and exit 0 on the clean worktree - confirm both;
- 3. save the change as a patch: `git -C {wt} diff > /tmp/wt/out/{pid}_k.patch` (create /tmp/wt/out if needed) and copy the demo to /tmp/wt/out/{pid}_k_demo.py; write /tmp/wt/out/{pid}_k.json with keys: property, summary (what was changed), needs (what specific input/sequence is needed for it to manifest), tests ("91 passed"), demo_clean_exit, demo_mutant_exit;
+ 3. save the change as a patch: `git -C {wt} diff > /tmp/wt/{OUTDIR}/{pid}_k.patch` (create /tmp/wt/out if needed) and copy the demo to /tmp/wt/{OUTDIR}/{pid}_k_demo.py; write /tmp/wt/{OUTDIR}/{pid}_k.json with keys: property, summary (what was changed), needs (what specific input/sequence is needed for it to manifest), tests ("91 passed"), demo_clean_exit, demo_mutant_exit;
  4. restore the clean worktree before the next mutant (`git -C {wt} checkout -- .`).
 The patch must apply with `git apply` to a clean checkout of the same commit (check with `git -C {wt} apply --check` after restoring).
 
